@@ -18,6 +18,6 @@ CONSTANTS
 CONSTRAINT Bound
 VIEW View
 SYMMETRY Sym
-INVARIANTS TypeOK MappingSound ReplyIsCurrent DeliveredIsCurrent AtMostOneReply QueuedIsLive ReadyNotBusy ReadyDistinct ClosedIsEmpty CloseUnblocks
+INVARIANTS TypeOK MappingSound ReplyIsCurrent DeliveredIsCurrent AtMostOneReply QueuedIsLive ReadyNotBusy ReadyDistinct ClosedIsEmpty CloseUnblocks NoOrphan RetryArmed BlockedForAReason
 PROPERTIES DeliveredMostRecent NoDeadDispatch NoRetryNoResend
 CHECK_DEADLOCK FALSE
